@@ -93,17 +93,18 @@ def contract(qualname, props=(), variant=None):
 
 
 class Lemma:
-    def __init__(self, name, props, fn, doc=''):
+    def __init__(self, name, props, fn, doc='', replay=None):
         self.name = name
         self.props = props
         self.fn = fn
         self.doc = doc
+        self.replay = replay        # fn(label, model) -> python source of a native replay (exit 1 = the real code violates it)
 
 
-def lemma(name, props=()):
+def lemma(name, props=(), replay=None):
     """a pure implication between contract predicates: fn(E) returns {label: goal} after building its own symbols"""
     def deco(fn):
-        LEMMAS[name] = Lemma(name, list(props), fn, (fn.__doc__ or '').strip())
+        LEMMAS[name] = Lemma(name, list(props), fn, (fn.__doc__ or '').strip(), replay)
         return fn
     return deco
 
